@@ -995,7 +995,10 @@ class RequestHandler(BaseProtocol, Generic[_Request]):
             # so on reading the request: whatever the client sends next would
             # be swallowed as tunnel data. End the tunnel and close instead.
             resp.force_close()
-            self._parser.feed_eof()
+            # A CONNECT framed by Content-Length/chunked never entered tunnel
+            # mode: its body parser refuses EOF while the body is outstanding.
+            with suppress(HttpProcessingError):
+                self._parser.feed_eof()
         try:
             await prepare_meth(request)
             await resp.write_eof()
